@@ -13,6 +13,7 @@ pub mod c15;
 pub mod c17;
 pub mod c19;
 pub mod c19_ffi;
+pub mod c20;
 pub mod c18;
 
 pub fn dispatch(env: &Env) -> i32 {
@@ -30,6 +31,7 @@ pub fn dispatch(env: &Env) -> i32 {
         "C17" => c17::run(env),
         "C18" => c18::run(env),
         "C19" => c19::run(env),
+        "C20" => c20::run(env),
         other => {
             eprintln!("no check for property {other}");
             2
